@@ -42,6 +42,16 @@ NEEDS = {
  'C15b-tree-mergehook-return-forwarded': 'HierarchicalTree wrapped around a model whose merge hook returns the prototype pair (weight hook) and keeps from_idx at least once',
  'C17b-border-gap-needs-both-nonempty': 'exactly one empty sequence + substitution function with gap cost != 1',
  'C19b-squash-x0-honoured-gauss-exp': 'squash gaussian/exponential + explicit non-zero x0',
+ 'C01c-buffer-reset-band-one-short': 'Python distance + max_step rejecting the pair at the right edge of the band in some row (stale cell of the rolling buffer)',
+ 'C03c-row-above-maxdist-early-inf-psi1e': 'C distance + explicit max_dist + psi end-relaxation on series 1 + a trailing row entirely above the bound',
+ 'C04c-regionC-first-column-not-reset': 'C warping paths + window narrow enough for region C + psi_1b > window + max(0, l1 - l2)',
+ 'C05c-python-path-penalty-squared-eu': "Python warping_path (also dtw_ndim.warping_path, warp) + inner_dist='euclidean' + penalty not in {0, 1}",
+ 'C08c-slice-single-pass-fill-overflow': 'compact matrix + window > 0 + a partial slice whose last row lies entirely beside the band (heap overflow, values unchanged)',
+ 'C12c-single-series-mask-shortcut': 'Python dba with a mask selecting exactly one series of the same length as the average and a non-diagonal optimal path',
+ 'C13c-maxlength-on-path-length': 'kbest_matches with maxlength set and a match whose segment is within maxlength but whose path is longer (valid matches silently dropped)',
+ 'C16c-empty-cluster-filled-after-final': 'a final assignment that leaves a mean nobody is nearest to (duplicates, k close to the number of distinct series, unlucky initialisation)',
+ 'C18c-reset-mask-windowdiff-merged': 'LocalConcurrences on the full matrix + window + series 2 longer than series 1 + the best cells in the part of the band that exists only because of the length difference',
+ 'C20c-dba-loop-asarray-in-place': 'dba_loop(use_c=True, thr=None, keep_averages=False) with a float64 ndarray / array.array as initial average or first series',
  'C20b-verify-contiguous-fortran': 'n-dim series as Fortran-ordered/transposed 2-D array + C engine pairwise entry point',
 }
 STRENGTHENED = {
@@ -54,6 +64,9 @@ STRENGTHENED = {
  'C19b-squash-x0-honoured-gauss-exp': 'missed (x0 only generated for logistic); caught after generating x0 for every method',
  'C20-search-maxdist-not-reset': 'caught by C14 from the start; C20 itself missed it until model-object histories were added to C20',
  'C20b-verify-contiguous-fortran': 'missed (the Fortran/transposed forms had guard rows, hence were not contiguous); caught after adding an exactly F-contiguous form',
+ 'C13c-maxlength-on-path-length': 'missed (C13 judged only what was yielded); caught after adding the completeness rule: an end that no stated rule can exclude must be yielded',
+ 'C18c-reset-mask-windowdiff-merged': 'missed (validity monitor only); caught after adding "the first match after a (re)start is traced from the maximum of the matrix" and two pairs whose best cells lie in the widened part of the band',
+ 'C20c-dba-loop-asarray-in-place': 'caught by C12 from the start; C20 itself missed it until the option variants of dba_loop (thr=None, explicit c, keep_averages, mask) were added to its catalogue - which also exposed F51. patch.diff was rebased onto F51 (original in patch.orig.diff)',
  'C15-persisted-maxdist-option': 'C15 was extended with real-distance fit histories after reading this seed and before its first run',
  'C19-squash-keepsign-base': 'C19 was extended with base=10 after reading this seed and before its first run',
  'C03b-pruning-tightest-bound-unsquared': 'C03 was extended with use_pruning+max_dist after reading this seed and before its first run',
